@@ -1,12 +1,12 @@
 CHECKS = {
  "C04": {
-  "text": "Exploration: Hypothesis-generated allocate/free/grow histories (<=60 ops quick, <=400 thorough) over both CPU buffer kinds, capacities, alignments and grow steps, plus complete enumeration of all histories up to length 4 (quick) / 5 (thorough) over a 13-letter alphabet for 72 configurations; invariant oracle (bounds, alignment, disjointness, data patterns preserved, capacity monotone) after every step. Finite search: absence beyond the explored histories is not claimed.",
+  "text": "Exploration: Hypothesis-generated allocate/free/grow histories (<=60 ops quick, <=400 thorough) over both CPU buffer kinds, capacities, alignments and grow steps, plus complete enumeration of all histories up to length 4 (quick) / 5 (thorough) over a 14-letter alphabet for 72 configurations; invariant oracle (bounds, alignment, disjointness, data patterns preserved, capacity monotone) after every step. Finite search: absence beyond the explored histories is not claimed.",
   "note": "Trusts update_from_buffer/to_bytearray to write/read region bytes (those are checked by C13). free() only called with live (offset,size) pairs.",
   "technique": "property-based testing: generated operation histories + exhaustive small-scope enumeration, invariant oracle",
  },
  "C12": {
-  "text": "Exploration: the same history space as C04, each history compared step by step with an executable first-fit / coalescing free-list specification on observable results only (offsets, growth iff nothing fits, get_free, exceptions), final exact-fit probe; exhaustive for all histories up to length 4 (quick) / 5 (thorough) over 13 letters x 72 configurations.",
-  "note": "The specification fixes that alignment padding is lost (as the statement allows) and takes the growth amount from the implementation. Requests of size >= 1 only.",
+  "text": "Exploration: the same history space as C04, each history compared step by step with an executable first-fit / coalescing free-list specification on observable results only (offsets, growth iff nothing fits, get_free, exceptions), final exact-fit probe; exhaustive for all histories up to length 4 (quick) / 5 (thorough) over 14 letters x 72 configurations.",
+  "note": "The specification fixes that alignment padding is lost (as the statement allows) and takes the growth amount from the implementation. Empty requests (size 0) are judged by a weak oracle: no failure, within capacity, free total unchanged apart from padding.",
   "technique": "model-based property testing: generated and exhaustively enumerated histories against a reference model",
  },
 }
